@@ -87,9 +87,12 @@ impl AliasPlan {
         let mut out = Ledger::default();
         let mut seen = BTreeSet::new();
         let mut rest = Vec::new();
+        let mut txn_seen = false;
         for e in &ledger.entries {
             match e {
-                Entry::Commodity { name, precision, aliases } => {
+                // only a commodity's first declaration, and only one that precedes every
+                // transaction, takes the aliases (a later re-declaration stays as it is)
+                Entry::Commodity { name, precision, aliases } if !txn_seen && !seen.contains(name) => {
                     let mut al = aliases.clone();
                     if let Some(extra) = self.commodities.get(name) {
                         al.extend(extra.iter().cloned());
@@ -97,7 +100,10 @@ impl AliasPlan {
                     seen.insert(name.clone());
                     rest.push(Entry::Commodity { name: name.clone(), precision: *precision, aliases: al });
                 }
-                other => rest.push(other.clone()),
+                other => {
+                    txn_seen |= matches!(other, Entry::Txn(_));
+                    rest.push(other.clone())
+                }
             }
         }
         for (a, al) in &self.accounts {
